@@ -317,12 +317,12 @@ func runC05(c *Ctx) {
 // ---------------- C06: HTJ2K lossless ----------------
 
 type C06Case struct {
-	F        FrameCase
-	TS       string
-	BW, BH   int
-	Levels   int
-	Nil      bool
-	ViaDec   bool // decode with jpeg2000.Decoder + SetBlockDecoderFactory(htj2k.NewHTDecoder) instead of the codec
+	F      FrameCase
+	TS     string
+	BW, BH int
+	Levels int
+	Nil    bool
+	ViaDec bool // decode with jpeg2000.Decoder + SetBlockDecoderFactory(htj2k.NewHTDecoder) instead of the codec
 }
 
 func genC06(r *Rand, thor bool) C06Case {
@@ -508,12 +508,15 @@ func runC06Fixtures(c *Ctx) {
 	}
 	var man struct {
 		Fixtures []struct {
-			Name                                           string
-			Width, Height, Components                      int
-			BitsAllocated, BitsStored                      int
-			Signed                                         bool
-			InputRaw                                       string
-			Codestreams                                    map[string]struct{ Path string; Lossless bool }
+			Name                      string
+			Width, Height, Components int
+			BitsAllocated, BitsStored int
+			Signed                    bool
+			InputRaw                  string
+			Codestreams               map[string]struct {
+				Path     string
+				Lossless bool
+			}
 		}
 	}
 	if err := json.Unmarshal(b, &man); err != nil {
